@@ -79,6 +79,16 @@ def wallCorners (g w t : Ang) (sp : SpaceP) (outline : List (Rat × Rat)) (ws : 
     let pos := wallPosition g sp ⟨ws.x, ws.y, ws.z⟩
     pts.map (fun p => toGlobal pos az t p.1 p.2)
 
+/-- `shades_from_bdl`, rectangular `BUILDING-SHADE` (X, Y, Z, HEIGHT, WIDTH, AZIMUTH, TILT): the origin is turned by the building's
+    deviation `g`, the azimuth accumulates shade azimuth and deviation, the polygon is the `width × height` rectangle; global corners -/
+def rectShadeCorners (g a t : Ang) (o : Vec3) (w h : Rat) : List Vec3 :=
+  [(0, 0), (w, 0), (w, h), (0, h)].map (fun p => toGlobal (rotZ (Ang.neg g) o) (azimuth52016 g Ang.zero a) t p.1 p.2)
+
+/-- the source convention for a surface of BDL azimuth `a` (angle of its outward normal, clockwise from north) and tilt `t`: local x runs
+    along `(−cos a, sin a, 0)`, local y along `(−cos t · sin a, −cos t · cos a, sin t)`; the building is then turned by `−g` -/
+def rectShadeSpec (g a t : Ang) (o : Vec3) (u v : Rat) : Vec3 :=
+  rotZ (Ang.neg g) (vadd o (vadd (vsmul u ⟨-a.c, a.s, 0⟩) (vsmul v ⟨-(t.c * a.s), -(t.c * a.c), t.s⟩)))
+
 /-- a point of the wall's own frame in global coordinates (`to_global_coords_matrix`) -/
 def wallToWorld (pos : Vec3) (az t : Ang) (p : Vec3) : Vec3 := vadd pos (rotZ az (rotX t p))
 
